@@ -63,7 +63,11 @@ impl ImplementsGraph {
                 .into_iter()
                 .map(|idx| self.graph[idx].clone())
                 .collect(),
-            Err(_) => self.by_name.keys().cloned().collect(),
+            Err(_) => self
+                .graph
+                .node_indices()
+                .map(|idx| self.graph[idx].clone())
+                .collect(),
         }
     }
 
